@@ -1,6 +1,7 @@
 //! Counting global allocator. Installed by the binaries (`check`, `worker`), never by the
-//! library under test. Per-thread counters (bytes requested incl. the growth part of a
-//! realloc, number of calls) for C15; a process-wide live-bytes cap for the C01 workers.
+//! library under test. Per-thread counters (bytes requested - a growing realloc counts with
+//! its full new size - and number of calls) for C15; a process-wide live-bytes cap for the
+//! C01 workers.
 
 use std::alloc::{GlobalAlloc, Layout, System};
 use std::cell::Cell;
@@ -74,7 +75,11 @@ unsafe impl GlobalAlloc for Counting {
     }
     unsafe fn realloc(&self, p: *mut u8, l: Layout, new: usize) -> *mut u8 {
         if new > l.size() {
-            note_alloc(new - l.size());
+            // a growing realloc is charged with its full new size (it may copy the whole
+            // block), not just the growth: amortised doubling still sums to ~2x the final
+            // size, while a realloc per element shows up as the quadratic cost it can be
+            note_alloc(new);
+            note_free(l.size());
         } else {
             note_free(l.size() - new);
             let _ = CALLS.try_with(|c| c.set(c.get() + 1));
